@@ -75,7 +75,7 @@ void wbxml_tree_clb_wbxml_start_element(void *ctx, WBXMLTag *element, WBXMLAttri
                                                       element,
                                                       attrs);
     if (tree_ctx->current == NULL) {
-        tree_ctx->error = WBXML_ERROR_INTERNAL;
+        tree_ctx->error = WBXML_ERROR_NOT_ENOUGH_MEMORY;
     }
 }
 
@@ -146,7 +146,7 @@ void wbxml_tree_clb_wbxml_characters(void *ctx, WB_UTINY *ch, WB_ULONG start, WB
                                 tree_ctx->current,
                                 tmp_tree) == NULL)
         {
-            tree_ctx->error = WBXML_ERROR_INTERNAL;
+            tree_ctx->error = WBXML_ERROR_NOT_ENOUGH_MEMORY;
             wbxml_tree_destroy(tmp_tree);
         }
 
@@ -198,7 +198,7 @@ void wbxml_tree_clb_wbxml_characters(void *ctx, WB_UTINY *ch, WB_ULONG start, WB
         if (tree_ctx->current->type != WBXML_TREE_CDATA_NODE) {
             tree_ctx->current = wbxml_tree_add_cdata(tree_ctx->tree, tree_ctx->current);
             if (tree_ctx->current == NULL) {
-                tree_ctx->error = WBXML_ERROR_INTERNAL;
+                tree_ctx->error = WBXML_ERROR_NOT_ENOUGH_MEMORY;
                 return;
             }
         }
@@ -221,7 +221,7 @@ text_node:
                             (const WB_UTINY*) ch + start,
                             length) == NULL)
     {
-        tree_ctx->error = WBXML_ERROR_INTERNAL;
+        tree_ctx->error = WBXML_ERROR_NOT_ENOUGH_MEMORY;
     }
 }
 
